@@ -40,13 +40,13 @@ def head():
     return subprocess.check_output(['git', '-C', '/repo', 'log', '--format=%h', '-1'], text=True).strip()
 
 
-def do_import(src, rebased):
+def do_import(src, rebased, offset=0):
     for d in sorted(glob.glob(src + '/C??')):
         prop = os.path.basename(d)
         for k in (1, 2):
             if not os.path.exists('%s/patch%d.diff' % (d, k)):
                 continue
-            dst = '%s/%s-%d' % (ROOT, prop, k)
+            dst = '%s/%s-%d' % (ROOT, prop, k + offset)
             os.makedirs(dst, exist_ok=True)
             rb = '%s/%s.p%d.diff' % (rebased, prop, k)
             shutil.copy(rb if os.path.exists(rb) else '%s/patch%d.diff' % (d, k), dst + '/patch.diff')
@@ -54,10 +54,12 @@ def do_import(src, rebased):
             for cand in ('demo%d_test.go' % k, 'demo%d.go' % k):
                 if os.path.exists(d + '/' + cand):
                     shutil.copy(d + '/' + cand, dst + '/demo_test.go')
+            for extra in glob.glob('%s/demo%d?_test.go' % (d, k)):
+                shutil.copy(extra, dst + '/' + os.path.basename(extra))
             if os.path.exists('%s/README%d.md' % (d, k)):
                 shutil.copy('%s/README%d.md' % (d, k), dst + '/README.md')
             meta = json.load(open('%s/meta%d.json' % (d, k)))
-            meta['id'] = '%s-%d' % (prop, k)
+            meta['id'] = '%s-%d' % (prop, k + offset)
             meta['origin'] = 'fresh sub-agent given only the property text and a scratch worktree; patch.orig.diff is its change against the tree of that time, patch.diff the same change carried over to the current /repo HEAD'
             json.dump(meta, open(dst + '/meta.json', 'w'), indent=1)
             if open(dst + '/patch.diff').read() == open(dst + '/patch.orig.diff').read():
@@ -104,6 +106,7 @@ def confirm(i):
         shutil.rmtree(wt, ignore_errors=True)
         ok = res.get('applies') and res.get('builds') and res.get('demo_without_patch') == 'pass' and res.get('demo_with_patch') == 'fail' and res.get('suite_with_patch') == 'pass'
         res['ok'] = bool(ok)
+        meta = json.load(open(d + '/meta.json'))
         meta['confirmed'] = res
         json.dump(meta, open(d + '/meta.json', 'w'), indent=1)
         print(i, 'CONFIRMED' if ok else 'NOT CONFIRMED', {k: v for k, v in res.items() if k in ('applies', 'builds', 'demo_without_patch', 'demo_with_patch', 'suite_with_patch')})
@@ -138,7 +141,9 @@ def detect(i, tier='quick', props=None):
         sh('git -C /repo checkout -- . ; git -C /repo clean -fdq')
         # evidence and replays written while a seeded change was applied do not describe /repo
         sh('git checkout -- evidence; rm -f replays/*.json', cwd='/verif')
-        json.dump(meta, open(d + '/meta.json', 'w'), indent=1)
+        fresh = json.load(open(d + '/meta.json'))
+        fresh.setdefault('detection', {}).update(det)
+        json.dump(fresh, open(d + '/meta.json', 'w'), indent=1)
 
 
 def table():
@@ -153,7 +158,7 @@ def table():
 if __name__ == '__main__':
     cmd = sys.argv[1]
     if cmd == 'import':
-        do_import(sys.argv[2], sys.argv[3])
+        do_import(sys.argv[2], sys.argv[3], int(sys.argv[4]) if len(sys.argv) > 4 else 0)
     elif cmd == 'confirm':
         for i in ids(sys.argv[2]):
             confirm(i)
